@@ -145,7 +145,7 @@ class FnCtx:
             return self.eb.call(obj, bb, 0)
         return self.eb.rvalue(obj.rv, 0)
 
-    def reach_avoiding(self, event_blocks, guard_pred, start=0):
+    def reach_avoiding(self, event_blocks, guard_pred, start=0, const_bools=False):
         """Blocks of `event_blocks` reachable from `start` along paths that take no guard edge.
         guard_pred(expr, outcome) -> bool is asked for every switch edge with the *effective* condition
         (a switch on a bool variable is replaced by the expression last assigned to it on that path;
@@ -169,6 +169,16 @@ class FnCtx:
                         keep = True
                 except Exception:
                     keep = True
+            if const_bools and not keep:
+                # `matches!(x, A | B)` lowers to a bool that is only assigned constants inside the arms of a switch on x:
+                # following it lets the guard on x decide the later test of the bool
+                exprs = []
+                for d in ds:
+                    de = self._def_expr(d)
+                    while de[0] == "un" and de[1] == "Not":
+                        de = de[2]
+                    exprs.append(de)
+                keep = all(x[0] == "const" for x in exprs)
             if keep:
                 relevant[L] = ds
         tracked = relevant
